@@ -6,7 +6,8 @@
 // ---- what the oracle demands (and why) ------------------------------------------------------------
 // A = input region (d>0) or its complement (d<0);  G = result region (d>0) or its complement (d<0);
 // r = |d|;  rho(q) = exact distance from sample q to A;  g = 3/scaling (rounding grid guard).
-//   q in A                        => q in G          (growing keeps the input; shrinking adds nothing)
+//   (rho is signed: minus the depth for q inside A, so "q in A => q in G" is the first rule below whenever
+//    depth + lower exceeds the guard — always, except at scalings 1 and 8 where g is as large as the features)
 //   rho(q) < lower(q) - g         => q in G          "covers every point closer than d" / "nothing shallower"
 //   rho(q) > R + g                => q not in G      "no point farther than the join style allows" / "keeps deeper"
 //   otherwise                     => don't-care (counted as dontcare_band)
@@ -145,6 +146,7 @@ struct Group {
     ld gap = INFINITY;              // min distance between two members
     int comps = 1;                  // connected components of the region
     std::vector<std::array<int64_t, 2>> hole2;  // 2 x centre of every ring hole
+    bool may_arc_neg = true;        // shrinking can create round joins (some reflex corner of the region is possible)
     std::string orient;             // winding of every member as handed to gdstk: '+' counter-clockwise, '-' clockwise
     bool mixed = false;             // members of both windings
     bool ok = true;
@@ -231,6 +233,18 @@ static Group build_group(const std::vector<Shape>& shapes) {
     // nested members (one strictly inside the other, boundaries apart) are caught by pc.overlapping;
     // a member inside a ring's hole is disjoint.
     G.comps = (G.rel == "disjoint") ? (int)G.lat.size() : 1;
+    {  // every member convex and no two members in contact => the region has no reflex corner
+        bool convex = true;
+        for (auto& p : G.lat) {
+            int sg = 0;
+            for (size_t i = 0; i < p.size(); i++) {
+                int c = eg::sgn(eg::cross(p[i], p[(i + 1) % p.size()], p[(i + 2) % p.size()]));
+                if (c != 0 && sg != 0 && c != sg) convex = false;
+                if (c != 0) sg = c;
+            }
+        }
+        G.may_arc_neg = !(convex && (G.lat.size() == 1 || G.rel == "disjoint"));
+    }
     return G;
 }
 static std::string group_json(const Group& G) {
@@ -253,16 +267,21 @@ static const Join JOINS[] = {
     {"round8", OffsetJoin::Round, 8, 1.0},
     {"round32", OffsetJoin::Round, 32, 1.0},
 };
-static const double SCALINGS[] = {1000.0, 1048576.0};
+// index 0,1: the standard pair; 2..4: large scalings (Clipper's full-range mode: scaling*coordinate > 2^30;
+// 1e12 * (5 + 3*3 + margin) ~ 2e13 stays far inside the 62-bit range); 5,6: smallest scalings (grid = 1 and 1/8
+// lattice unit; lattice features of width >= 1 are not narrower than the grid)
+static const double SCALINGS[] = {1000.0, 1048576.0, 2147483648.0, 1e9, 1e12, 1.0, 8.0};
+static const char* SCALING_NAMES[] = {"1000", "2^20", "2^31", "1e9", "1e12", "1", "8"};
+static const int NSCALINGS = 7;
 struct Cfg { double d; int join; bool uni; int sc; };
 // order: |d| ascending, sign +/-, join, union, scaling  (smallest first)
-static std::vector<Cfg> all_cfgs() {
+static std::vector<Cfg> all_cfgs(const std::vector<int>& scs = {0, 1}) {
     std::vector<Cfg> v;
     for (double a : DIST)
         for (int sg = 0; sg < 2; sg++)
             for (int j = 0; j < 5; j++)
                 for (int u = 0; u < 2; u++)
-                    for (int s = 0; s < 2; s++) v.push_back({sg ? -a : a, j, u != 0, s});
+                    for (int s : scs) v.push_back({sg ? -a : a, j, u != 0, s});
     return v;
 }
 static std::string cfg_str(const Cfg& c) { return fmt("d=%g join=%s uni=%d sc=%d", c.d, JOINS[c.join].name, c.uni ? 1 : 0, c.sc); }
@@ -332,7 +351,7 @@ static std::string result_json(const Result& res, double sc) {
     std::vector<std::string> ps;
     for (auto& p : res.polys) {
         std::vector<std::string> vs;
-        for (size_t k = 0; k < p.size() && k < 80; k++) vs.push_back(fmt("[%.9g,%.9g]", (double)(p[k].x / KM) / sc, (double)(p[k].y / KM) / sc));
+        for (size_t k = 0; k < p.size() && k < 80; k++) vs.push_back(fmt("[%.14g,%.14g]", (double)(p[k].x / KM) / sc, (double)(p[k].y / KM) / sc));
         if (p.size() > 80) vs.push_back(jstr(fmt("... %zu vertices", p.size())));
         ps.push_back(jarr(vs));
         if (ps.size() >= 6) break;
@@ -353,7 +372,7 @@ static int64_t judge(const Group& G, const c13::Field& F, const Cfg& c, const Re
     const Join& J = JOINS[c.join];
     const double sc = SCALINGS[c.sc];
     const int64_t S = (int64_t)sc;
-    const double r = fabs(c.d), Rr = r * J.reach, g = 3.0 / sc + 1e-9;
+    const double r = fabs(c.d), Rr = r * J.reach, g = 3.0 / sc + 1e-11;
     const bool grow = c.d > 0, round = J.j == OffsetJoin::Round;
     const double cNom = round ? cos(M_PI / J.tol) : 1.0, cN = round ? cos(1.5 * M_PI / J.tol) : 1.0;
     const bool slit_dc = !grow && !c.uni && !G.pc.internal.empty();
@@ -371,12 +390,14 @@ static int64_t judge(const Group& G, const c13::Field& F, const Cfg& c, const Re
             size_t k = F.at(i, j);
             bool inside = F.inside[k];
             bool inA = grow ? inside : !inside;
-            double rho = inA ? 0 : (grow ? F.dOut[k] : F.dIn[k]);
+            // signed distance to A: negative (minus the depth) inside A.  The ideal boundary of G is at signed
+            // distance r, so a sample inside A is judged only if depth + r exceeds the rounding guard (this only
+            // matters at the smallest scalings, where the guard is as large as the features).
+            double rho = inA ? -(grow ? F.dIn[k] : F.dOut[k]) : (grow ? F.dOut[k] : F.dIn[k]);
             bool corner = inA ? false : (grow ? F.vOut[k] : F.vIn[k]);
             double lower = (round && corner) ? r * cN : r;
             int expG;  // 1: must be in G, 0: must not, -1: don't-care
-            if (inA) expG = 1;
-            else if (rho < lower - g) expG = 1;
+            if (rho < lower - g) expG = 1;
             else if (rho > Rr + g) expG = 0;
             else expG = -1;
             if (expG >= 0 && slit_dc && F.dInt[k] <= Rr + g) { t.dc_slit++; expG = -2; }
@@ -445,9 +466,17 @@ static const char* admit(const Group& G, const Cfg& c, const char* sub) {
     return "offset.pairs_neargap";
 }
 
+static double ARC_BUDGET = 5e4;  // quick 5e4, thorough 3e5 vertices per quarter arc
 static void run_case(const Group& G, const c13::Field& F, const Cfg& c, const char* sub0, Result* keep = NULL) {
     const char* sub = admit(G, c, sub0);
     if (!sub) { R->count("skipped_out_of_alphabet"); return; }
+    if (c.d < 0 && JOINS[c.join].j == OffsetJoin::Round && G.may_arc_neg) {
+        // for d<0 gdstk's ArcTolerance is negative, Clipper falls back to 0.25 grid units: a quarter arc has
+        // (pi/2)/sqrt(0.5/(|d|*scaling)) vertices (2e4 at 1000*2^20... up to 1e6 at 1e12).  Cases above the tier's
+        // vertex budget are not executed (cost only; counted, never reported as covered).
+        double est = (M_PI / 2) / sqrt(0.5 / (fabs(c.d) * SCALINGS[c.sc]));
+        if (est > ARC_BUDGET) { R->count("skipped_arc_vertex_budget"); return; }
+    }
     double ta = now();
     Result res = call_offset(G, c);
     double tb = now();
@@ -594,6 +623,60 @@ static std::vector<std::vector<Shape>> winding_variants(const std::vector<Shape>
     }
     return out;
 }
+// reduced alphabet for the large- and small-scaling dimension: shapes with exactly mirrored slopes at a corner
+// (diamonds = squares on a corner, isosceles triangles in 4 directions, chevrons / zigzags, octagon, hexagon)
+// next to rectangles, L shapes and a ring; singles in both windings; pairs disjoint / touching (corner, edge) /
+// overlapping / nested.
+static Shape poly(std::initializer_list<eg::P> pts, const char* cls) { return {'P', eg::Poly(pts), cls}; }
+static std::vector<std::vector<Shape>> extreme_scaling_groups(bool thorough) {
+    auto diamond = [](int cx, int cy, int h) { return poly({{cx, cy - h}, {cx + h, cy}, {cx, cy + h}, {cx - h, cy}}, "diamond"); };
+    std::vector<Shape> S = {
+        diamond(1, 1, 1), diamond(2, 2, 2),
+        poly({{0, 0}, {2, 0}, {1, 2}}, "iso"), poly({{0, 2}, {1, 0}, {2, 2}}, "iso"), poly({{0, 0}, {2, 1}, {0, 2}}, "iso"), poly({{2, 0}, {2, 2}, {0, 1}}, "iso"),
+        poly({{0, 0}, {4, 0}, {2, 1}}, "iso"), poly({{0, 0}, {2, 0}, {1, 3}}, "iso"),
+        poly({{0, 0}, {1, 1}, {2, 0}, {2, 2}, {1, 3}, {0, 2}}, "chevron"), poly({{0, 0}, {2, 0}, {3, 1}, {2, 2}, {0, 2}, {1, 1}}, "chevron"),
+        poly({{0, 0}, {1, 1}, {2, 0}, {3, 1}, {4, 0}, {4, 2}, {0, 2}}, "zigzag"),
+        poly({{1, 0}, {2, 0}, {3, 1}, {3, 2}, {2, 3}, {1, 3}, {0, 2}, {0, 1}}, "octagon"), poly({{1, 0}, {3, 0}, {4, 1}, {3, 2}, {1, 2}, {0, 1}}, "hexagon"),
+        rect(0, 0, 1, 1), rect(0, 0, 3, 1), rect(0, 0, 2, 5), lshape(0, 0, 2, 2, 0, 1, 1), lshape(0, 0, 4, 3, 2, 3, 1),
+        ring(0, 0, 3, 3, 1, 1, 2, 2),
+    };
+    for (auto& s : S)
+        if (s.kind == 'P' && !eg::is_simple(s.pts, true)) R->internal_error("non-simple shape in the scaling alphabet: " + spec_of(s));
+    std::vector<std::vector<Shape>> out;
+    for (auto& s : S) {
+        out.push_back({s});
+        Shape t = s;
+        t.rev = true;
+        if (thorough || s.cls == "diamond" || s.cls == "iso") out.push_back({t});
+    }
+    auto at = [](Shape s, int dx, int dy) { return translated(s, dx, dy); };
+    Shape d1 = diamond(1, 1, 1), iso = poly({{0, 0}, {2, 0}, {1, 2}}, "iso"), isod = poly({{0, 2}, {1, 0}, {2, 2}}, "iso");
+    std::vector<std::vector<Shape>> P = {
+        {d1, at(d1, 2, 0)},            // touching at a corner
+        {d1, at(d1, 1, 1)},            // sharing an edge
+        {d1, at(d1, 1, 0)},            // overlapping
+        {d1, at(d1, 3, 0)},            // disjoint, gap 1
+        {d1, at(d1, 2, 2)},            // disjoint diagonal (gap sqrt2)
+        {diamond(2, 2, 2), at(d1, 1, 1)},   // nested
+        {d1, rect(2, 0, 3, 2)},        // diamond corner on a rectangle edge
+        {d1, rect(0, 2, 2, 3)},        // diamond corner on a rectangle edge (top)
+        {iso, at(isod, 0, 2)},         // apex to apex
+        {iso, at(iso, 2, 0)},          // base corners touching
+        {iso, at(isod, 1, 0)},         // sharing a slanted edge
+        {iso, at(iso, 1, 0)},          // overlapping
+        {iso, rect(0, -1, 2, 0)},      // triangle on a rectangle (house)
+        {rect(0, 0, 2, 1), rect(0, 1, 1, 2)},   // L from two rectangles
+        {rect(0, 0, 1, 1), rect(2, 0, 3, 1)},   // disjoint squares
+        {ring(0, 0, 3, 3, 1, 1, 2, 2), at(d1, 3, 0)},  // ring with a diamond touching its side
+    };
+    for (auto& g : P) {
+        out.push_back(g);
+        if (thorough) for (auto& v : winding_variants(g, false)) out.push_back(v);
+        else { auto v = g; v[1].rev = true; out.push_back(v); }
+    }
+    for (auto& g : out) canon_translate(g);
+    return out;
+}
 // partition families: every member of a family covers the same region
 static std::vector<std::vector<std::vector<Shape>>> families() {
     std::vector<std::vector<std::vector<Shape>>> F;
@@ -648,10 +731,11 @@ static bool only(const std::string& sub) {  // debugging aid: C13_ONLY=<prefix> 
     const char* e = getenv("C13_ONLY");
     return !e || sub.compare(0, strlen(e), e) == 0;
 }
-static void run_groups(const std::string& sub, const std::string& desc, const std::vector<std::vector<Shape>>& groups, int r, int only_scaling = -1) {
+static void run_groups(const std::string& sub, const std::string& desc, const std::vector<std::vector<Shape>>& groups, int r, const std::vector<int>& scs = {0, 1}) {
     if (!only(sub)) return;
-    std::vector<Cfg> cfgs;
-    for (auto& c : all_cfgs()) if (only_scaling < 0 || c.sc == only_scaling) cfgs.push_back(c);
+    std::vector<Cfg> cfgs = all_cfgs(scs);
+    std::string scnames, scidx;
+    for (size_t i = 0; i < scs.size(); i++) { scnames += (i ? "," : "") + std::string(SCALING_NAMES[scs[i]]); scidx += (i ? "," : "") + std::to_string(scs[i]); }
     double t_start = now();
     auto body = [&](int64_t gi) {
         Group G = build_group(groups[gi]);
@@ -669,8 +753,8 @@ static void run_groups(const std::string& sub, const std::string& desc, const st
     };
     bool ok = parallel_for(*R, (int64_t)groups.size(), body,
                            [&](int64_t gi) { return jobj({{"spec", jstr(spec_of(groups[gi]))}, {"then", jstr("one of the configurations")}}); },
-                           [&](int64_t gi) { return "sub=" + sub + " spec=" + spec_of(groups[gi]) + fmt(" r=%d all=1", r); }, PFOptions{120, sub, true});
-    R->bound(sub, desc + fmt(" x {+-}{0.2,0.5,1,1.7,3} x {miter2,miter3,bevel,round8,round32} x union{F,T} x scaling%s; samples ((i+1/3)/%d,(j+1/7)/%d)", only_scaling < 0 ? "{1000,2^20}" : only_scaling == 0 ? "{1000}" : "{2^20}", r, r), ok,
+                           [&](int64_t gi) { return "sub=" + sub + " spec=" + spec_of(groups[gi]) + fmt(" r=%d all=1 scs=", r) + scidx; }, PFOptions{120, sub, true});
+    R->bound(sub, desc + fmt(" x {+-}{0.2,0.5,1,1.7,3} x {miter2,miter3,bevel,round8,round32} x union{F,T} x scaling{%s}; samples ((i+1/3)/%d,(j+1/7)/%d)", scnames.c_str(), r, r), ok,
              (int64_t)groups.size() * (int64_t)cfgs.size(), {{"groups", jint((int64_t)groups.size())}, {"wall_s", jnum(floor((now() - t_start) * 10) / 10)}});
 }
 
@@ -761,6 +845,7 @@ static bool parse_cfg(Cfg& c) {
     for (int j = 0; j < 5; j++) if (R->rarg("join") == JOINS[j].name) c.join = j;
     c.uni = R->rarg("uni") == "1";
     c.sc = atoi(R->rarg("sc").c_str());
+    if (c.sc < 0 || c.sc >= NSCALINGS) c.sc = 0;
     return true;
 }
 int main(int argc, char** argv) {
@@ -774,7 +859,11 @@ int main(int argc, char** argv) {
         if (r < 1) r = 2;
         Group G = build_group(parse_spec(run.rarg("spec")));
         c13::Field F = c13::make_field(G.lat, G.pc, r, MARGIN);
-        std::vector<Cfg> cfgs = all_cfgs();
+        std::vector<int> scs;
+        for (int v : parse_hist(run.rarg("scs"))) if (v >= 0 && v < NSCALINGS) scs.push_back(v);
+        if (scs.empty()) scs = {0, 1};
+        std::vector<Cfg> cfgs = all_cfgs(scs);
+        ARC_BUDGET = 1e9;
         Cfg one;
         if (parse_cfg(one)) cfgs = {one};
         const char* base = sub == "offset.pairs_neargap" ? "offset.pairs" : sub.c_str();
@@ -799,6 +888,12 @@ int main(int argc, char** argv) {
     // single shapes, smallest first
     run_groups("offset.single.rect", T ? "all 225 lattice rectangles on {0..5}^2, both orientations" : "25 rectangles w,h in 1..5 (one per translation class), both orientations", singles("rect", T, true), r1);
     run_groups("offset.single.ring", T ? "100 key-holed rings in both windings: outer" : "100 key-holed rings: outer [0,W]x[0,H], W,H in 3..5, every lattice hole with wall >= 1, built by boolean Not", singles("ring", false, T), r1);
+    ARC_BUDGET = T ? 3e5 : 5e4;
+    {
+        auto X = extreme_scaling_groups(T);
+        run_groups("offset.scaling_large", fmt("%zu groups of the mirrored-slope alphabet (diamonds, isosceles triangles, chevrons, zigzag, octagon, hexagon, rectangles, L, ring; singles and 16 pairs; windings) in Clipper's full-range mode", X.size()), X, 2, {2, 3, 4});
+        run_groups("offset.scaling_small", fmt("%zu groups of the same alphabet at the smallest scalings (grid = 1 and 1/8 lattice unit)", X.size()), X, 2, {5, 6});
+    }
     run_families(r1, T);
     run_groups("offset.single.L", T ? "all 1600 L shapes (every position), both orientations" : "144 L shapes (bounding box 2..4, every notch, 4 corners; one per translation class)", singles("L", T, T, T ? LAT : 4), r1);
     if (T) run_groups("offset.single.tri_fine", "all non-degenerate lattice triangles on {0..5}^2, one per translation class, counter-clockwise, refinement 4", singles("tri", false, false), 4);
@@ -810,10 +905,10 @@ int main(int argc, char** argv) {
         // does not depend on the scaling; the all-counter-clockwise assignment runs at both scalings below).
         std::vector<std::vector<Shape>> W;
         for (auto& g : P) for (auto& v : winding_variants(g, false)) W.push_back(v);
-        if (!T) run_groups("offset.pairs_winding", fmt("%zu groups = %zu pairs x 3 non-identity winding assignments of the two members", W.size(), P.size()), W, 2, 0);
+        if (!T) run_groups("offset.pairs_winding", fmt("%zu groups = %zu pairs x 3 non-identity winding assignments of the two members", W.size(), P.size()), W, 2, {0});
         run_groups("offset.pairs", fmt("%zu pairs (every placement of %zu base shapes on {0..5}^2, unordered, one per translation class: disjoint, touching, overlapping, nested), both counter-clockwise; d<0 without union only for disjoint pairs",
                                        P.size(), pair_bases(T).size()), P, 2);
-        if (T) run_groups("offset.pairs_winding", fmt("%zu groups = %zu pairs x 3 non-identity winding assignments of the two members", W.size(), P.size()), W, 2, 0);
+        if (T) run_groups("offset.pairs_winding", fmt("%zu groups = %zu pairs x 3 non-identity winding assignments of the two members", W.size(), P.size()), W, 2, {0});
     }
     return run.finish();
 }
